@@ -826,7 +826,7 @@ def quantizeCoreP (c : Ctx) (d : Cell) (v : Src) (exp : Int) : Prog Cond := do
         wrExp d exp
         pure {}
     else do
-      let nc : Ctx := { c with prec := p.toNat, emin := MinExponent }   -- c.WithPrecision(p); nc.MinExponent = MinExponent
+      let nc : Ctx := { c with prec := p.toNat, emin := MinExponent, emax := frameEmax c.emax exp }   -- c.WithPrecision(p); nc.MinExponent = MinExponent; nc.MaxExponent shifted by exp
       wrExp d (-diff)
       let res ← roundP nc d (.cell d) false
       let de ← rdExp (.cell d)
